@@ -226,6 +226,9 @@ def wide_texts(n):
         "pub fn w() {\n  1" + "\n" * n + "}" + after,
         "pub const w = [" + nums + "]" + after,
         "pub fn w(v: #(" + ", ".join("Int" for _ in range(n)) + ")) { v }" + after,
+        # a long helper module: every signature mentions function types, tuple types and holes
+        "".join(f"pub fn m{i}(f: fn(a) -> b, p: #(a, _), g: fn() -> _) -> fn(#(a, b)) -> _ {{\n  f\n}}\n" for i in range(n)) + after,
+        "".join(f"pub type A{i} =\n  fn(#(Int, _)) -> fn() -> #(_, Int)\n" for i in range(n)) + after,
     ]
 
 
@@ -453,6 +456,14 @@ def run_c04(res, tier, seed):
         m = N("SOURCE_FILE", N("FUNCTION", T("fn"), N("NAME", T("f")), N("PARAM_LIST", T("("), T(")")),
                                N("BLOCK", T("{"), N("STMT_EXPR", e), T("}"))))
         progs.append((m, gen_gleam.render(m)))
+    # LONG modules: the items of many generated programs in one file (state that a parser carries from item to item - a
+    # counter, a depth, a flag - shows only here)
+    for k in range(3 if tier == "quick" else 40):
+        chunk = progs[k * 120:(k + 1) * 120]
+        items = [c for m, _ in chunk if m[1] == "SOURCE_FILE" for c in m[2]]
+        if items:
+            big = N("SOURCE_FILE", *items)
+            progs.append((big, gen_gleam.render(big, rng if k % 2 else None)))
     texts = [t for _, t in progs]
     sreqs = ["shape\t" + hexs(t) for t in texts]
     so, rc = common.run_lines(common.HARNESS_BIN, sreqs)
